@@ -210,7 +210,8 @@ class PropertyGroup(ABC):
         for uid in uids:
             if isinstance(uid, str):
                 uid = uuid.UUID(uid)
-            properties.append(uid)
+            if uid not in properties:  # a member is listed once
+                properties.append(uid)
 
         if not all(isinstance(uid, uuid.UUID) for uid in properties):
             raise TypeError("All uids must be of type uuid.UUID")
